@@ -49,6 +49,7 @@ pub fn dispatch(line: &str) -> String {
         "entryfile" => entry::entryfile(&toks),
         "vcdcut" => cut::vcdcut(&toks),
         "vcd" | "vcdmt" => vcdcmd::vcd(&toks),
+        "slice" => store::slice(&toks),
         "store" => store::store(&toks),
         "getoffset" => c05::getoffset(&toks),
         "getoffset_full" => c05::getoffset_full(&toks),
